@@ -26,6 +26,7 @@ RUN, RENDER = "C07.Layer.run", "C07.Layer.rresult"
 ATOL, RTOL = 2e-5, 3e-4
 SEL_F2 = "F2_first_max_row_and_column_miss"
 SEL_F9 = "F9_patch_negative_or_peak_nonpositive"
+SEL_F25 = "F25_refinement_patch_sticks_out_of_map"
 ENTRIES = ["find_instance_peaks"] * 5 + ["single_instance"] * 3 + ["function_kw"] * 2
 REF_PY = {"none": None, "integral": "integral", "local": "local"}
 REF_COQ = {"none": "RefNone", "integral": "RefIntegral", "local": "RefOther"}
@@ -38,13 +39,20 @@ def scale_batch(cms, k):
 
 
 def gen_case(rng, thorough=False):
-    cms, fam = M.gen_batch(rng, 8)
-    if rng.random() < 0.55:        # low-confidence maps: maxima between 0 and the usual thresholds (0.1 .. 0.3)
+    edge = rng.random() < 0.1
+    if edge:                       # non-dyadic threshold, channel maxima at / next to dtype(threshold)
+        cms, ethr, edt = M.gen_thr_edge(rng)
+        fam = "thr_edge"
+    else:
+        cms, fam = M.gen_batch(rng, 8)
+    if not edge and rng.random() < 0.55:        # low-confidence maps: maxima between 0 and the usual thresholds (0.1 .. 0.3)
         cms, fam = scale_batch(cms, rng.choice(WEAK)), fam + "/weak"
     entry = rng.choice(ENTRIES)
     mxs = sorted({max(v for row in m for v in row) for smp in cms for m in smp})
     t = rng.random()
-    if t < 0.2:
+    if edge:                       # 0.2 is find_global_peaks' own default: sometimes leave it to the callee
+        thr = None if (ethr == F(1, 5) and entry == "function_kw" and t < 0.5) else ethr
+    elif t < 0.2:
         thr = None                                                  # omitted: the entry point's own default
     elif t < 0.45:
         thr = F(0)
@@ -72,6 +80,9 @@ def gen_case(rng, thorough=False):
         c["effs"] = [rng.choice(["1", "1", "1/2", "2", "3/4", "5/4", "1/4"]) for _ in cms]
     c["dtype"] = "float32"         # set by finish_case once the effective refinement is known
     c["_dt"] = rng.random()
+    if edge:
+        c["dtype"] = edt
+        del c["_dt"]
     return c
 
 
@@ -124,7 +135,9 @@ def effective(c, mods):
     else:
         ref = o["refinement"]
     p = o["p"] if o["p"] is not None else int(d[dk["p"]])
-    e = {"thr": thr, "refinement": ref, "p": p, "stride": F(1), "scale": F(1)}
+    # thr_cmp: the threshold as the code compares it (rounded to the map's dtype) — the model's and the oracle's `thr`
+    e = {"thr": thr, "thr_cmp": M.thr_in_dtype(thr, c.get("dtype", "float32")), "refinement": ref, "p": p,
+         "stride": F(1), "scale": F(1)}
     if c["entry"] != "function_kw":
         e["stride"] = F(o["stride"])
         e["scale"] = F(o["scale"]) if o["scale"] is not None else F(str(d[dk["scale"]]))
@@ -138,24 +151,26 @@ def factors(c, e):
     return [e["stride"] / e["scale"] / F(f) for f in c["effs"]]
 
 
-def callee_defaults_lit(mods):
-    """find_global_peaks' declared defaults (read from its signature) as a Coq `defaults`."""
+def callee_defaults_lit(mods, dtype="float32"):
+    """find_global_peaks' declared defaults (read from its signature) as a Coq `defaults`; the threshold as the
+    code compares it with a map of the given dtype."""
     d = _defaults(mods[1].find_global_peaks)
     dr = d["refinement"]
     ref = "RefNone" if dr is None else ("RefIntegral" if dr == "integral" else "RefOther")
-    return f"(mk_defaults {core.cq(F(str(d['threshold'])))} {ref} {int(d['integral_patch_size'])}%nat)"
+    return (f"(mk_defaults {core.cq(M.thr_in_dtype(F(str(d['threshold'])), dtype))} {ref} "
+            f"{int(d['integral_patch_size'])}%nat)")
 
 
 def term(c, fixed, mods):
     e = effective(c, mods)
     o = c["opts"]
-    dl = callee_defaults_lit(mods)
+    dl = callee_defaults_lit(mods, c.get("dtype", "float32"))
     if c["entry"] == "function_kw":
-        kw = (f"(mk_kw {core.copt(None if o['thr'] is None else F(o['thr']), core.cq)} "
+        kw = (f"(mk_kw {core.copt(None if o['thr'] is None else e['thr_cmp'], core.cq)} "
               f"{core.copt(None if o['refinement'] == 'omitted' else REF_COQ[o['refinement']])} "
               f"{core.copt(None if o['p'] is None else str(o['p']) + '%nat')})")
         return f"LKw {dl} {core.cbool(fixed)} {kw} {M.cms_lit(c['cms'])}"
-    opts = (f"(mk_opts {core.cq(e['thr'])} {REF_COQ[e['refinement']]} {e['p']}%nat {core.cq(e['stride'])} "
+    opts = (f"(mk_opts {core.cq(e['thr_cmp'])} {REF_COQ[e['refinement']]} {e['p']}%nat {core.cq(e['stride'])} "
             f"{core.cq(e['scale'])})")
     return (f"LPeaks {dl} {core.cbool(fixed)} {opts} {core.clist([F(f) for f in c['effs']], core.cq)} "
             f"{M.cms_lit(c['cms'])}")
@@ -248,7 +263,7 @@ def oracle(c, out, mods, extra=None):
     answer.  Returns [(reason, selector)]."""
     fails = []
     e = effective(c, mods)
-    cms, thr, p = c["cms"], e["thr"], e["p"]
+    cms, thr, p = c["cms"], e["thr_cmp"], e["p"]
     B, C = len(cms), len(cms[0])
     H, W = len(cms[0][0]), len(cms[0][0][0])
     if len(out) != B or any(len(o) != C for o in out):
@@ -288,12 +303,15 @@ def oracle(c, out, mods, extra=None):
                     fails.append((f"{where}: refined {pt} (map units {w}) is more than half a patch (p={p}) from cell "
                                   f"{(x0, y0)}", SEL_F9 if M.selector_F9(m, x0, y0, r) else None))
                     continue
-                P = M.patch_values(m, x0, y0, r)
-                n = 2 * r + 1
-                sym = all(P[i][j] == P[n - 1 - i][n - 1 - j] for i in range(n) for j in range(n))
-                if sym and not M.selector_F9(m, x0, y0, r):
-                    if abs(w[0] - x0) > 1e-4 * ts or abs(w[1] - y0) > 1e-4 * ts:
-                        fails.append((f"{where}: patch symmetric about {(x0, y0)} but refined to {w} (map units)", None))
+                moved = abs(w[0] - x0) > 1e-4 * ts or abs(w[1] - y0) > 1e-4 * ts                # (f), see props/c07.py
+                if moved and not M.selector_F9(m, x0, y0, r):
+                    P = M.patch_values(m, x0, y0, r)
+                    n = 2 * r + 1
+                    if all(P[i][j] == P[n - 1 - i][n - 1 - j] for i in range(n) for j in range(n)):
+                        fails.append((f"{where}: window symmetric about {(x0, y0)} but refined to {w} (map units)", None))
+                    elif M.patch_sticks_out(m, x0, y0, p) and M.radially_symmetric(m, x0, y0, r):
+                        fails.append((f"{where}: bump symmetric about {(x0, y0)} (cut by the edge of the map) but refined "
+                                      f"to {w} (map units)", SEL_F25))
     if B > 1 or C > 1:                                       # each channel alone through the same entry point
         for s in range(B):
             for ch in range(C):
@@ -346,7 +364,7 @@ def compare(c, model, out, fixed, mods):
                     continue
                 if refine and v == 0 and not (isnan(pt[0]) and isnan(pt[1])):
                     mx = max(vv for row in c["cms"][s][ch] for vv in row)
-                    if mx >= e["thr"]:      # a valid peak of value 0 with a zero patch sum: non-finite in exact arithmetic
+                    if mx >= e["thr_cmp"]:      # a valid peak of value 0 with a zero patch sum: non-finite in exact arithmetic
                         skipped += 1
                         continue
                 if not (isnan(pt[0]) and isnan(pt[1])):
